@@ -347,6 +347,10 @@ func confExec(tok []string) string {
 		return confOwn(tok)
 	case "sval":
 		return confSVal(tok)
+	case "svalv":
+		return confSValV(tok)
+	case "ccval":
+		return confCCVal(tok)
 	case "nr":
 		return confNR(tok)
 	case "bweq":
